@@ -125,3 +125,39 @@ func H_C05_bind() {
 	vAssert("b", got.B == wantB)
 	vAssert("c", got.C == wantC)
 }
+
+// H_C05_redefinition: two definitions of the same class name in one stream, listing the fields in different
+// orders: each instance is built from the definition its own tag denotes.
+func H_C05_redefinition() {
+	a1, c1 := vInt32("a1"), vInt64("c1")
+	a2, c2 := vInt32("a2"), vInt64("c2")
+	tm := map[string]reflect.Type{"ZTriple": reflect.TypeOf(ZTriple{})}
+	p1 := zPerms3[vChoice("perm1", 6)]
+	p2 := zPerms3[vChoice("perm2", 6)]
+	names := []string{"a", "b", "c"}
+	mk := func(perm []int, a int32, b string, c int64) ([]string, []byte) {
+		vals := [][]byte{refInt(a), refStr(b), refLong(c)}
+		var fs []string
+		var body []byte
+		for _, f := range perm {
+			fs = append(fs, names[f])
+			body = append(body, vals[f]...)
+		}
+		return fs, body
+	}
+	f1, b1 := mk(p1, a1, "one", c1)
+	f2, b2 := mk(p2, a2, "two", c2)
+	// definition #0, instance of #0, definition #1 (same name), instance of #1, again an instance of #0
+	wire := refCat([]byte{0x78 + 3}, refClassDef("ZTriple", f1), []byte{0x60}, b1, refClassDef("ZTriple", f2), []byte{0x61}, b2, []byte{0x60}, b1)
+	out, err := ToObject(wire, tm)
+	vAssert("decode-noerr", err == nil)
+	l, ok := out.([]interface{})
+	vAssert("list", ok && len(l) == 3)
+	g1, ok1 := l[0].(*ZTriple)
+	g2, ok2 := l[1].(*ZTriple)
+	g3, ok3 := l[2].(*ZTriple)
+	vAssert("instances", ok1 && ok2 && ok3)
+	vAssert("first", vAnd(g1.A == a1, vAnd(g1.B == "one", g1.C == c1)))
+	vAssert("second", vAnd(g2.A == a2, vAnd(g2.B == "two", g2.C == c2)))
+	vAssert("third", vAnd(g3.A == a1, vAnd(g3.B == "one", g3.C == c1)))
+}
